@@ -36,6 +36,8 @@ pub struct BCfg {
     pub iter: bool,
     /// the DroppableStore is dropped by a panicking owner thread (drop during unwinding)
     pub panic_drop: bool,
+    /// the poisoned-list scenario of family D with this family's stop operation (see fam_d::execute_poison)
+    pub poison: Option<bool>,
 }
 
 pub fn gen(rng: &mut Rng, tiny: bool, focus: &str) -> BCfg {
@@ -91,6 +93,7 @@ pub fn gen(rng: &mut Rng, tiny: bool, focus: &str) -> BCfg {
         long_stall_ms: if !gated { 0 } else if cfg!(miri) { 40_000 } else if !tiny && rng.chance(1, 800) { *rng.pick(&[1100u64, 2300, 3600]) } else { 0 },
         iter: focus == "C14" || rng.chance(1, 5),
         panic_drop: how == STOP_DROP && rng.chance(1, 3),
+        poison: if rng.chance(1, 25) { Some(rng.chance(2, 3)) } else { None },
     }
 }
 
@@ -114,10 +117,14 @@ pub fn describe(c: &BCfg) -> J {
         ("long_stall_ms", J::U(c.long_stall_ms)),
         ("iterator_consumer", J::B(c.iter)),
         ("dropped_by_panicking_owner", J::B(c.panic_drop)),
+        ("on_unsubscribe_panics_inside_unsubscribe_then_stop", c.poison.map(|ch| J::s(if ch { "with a parked channeled subscriber holding a backlog" } else { "direct subscribers only" })).unwrap_or(J::Null)),
     ])
 }
 
 pub fn execute(c: &BCfg, seed: u64) -> W {
+    if let Some(ch) = c.poison {
+        return crate::fam_d::execute_poison(seed, c.how, c.n_red, c.perturb, ch);
+    }
     let ctx = Ctx::new(ScriptSrc::Table(c.scripts.clone()), 2, seed, c.perturb, false);
     let w = W::new(ctx, vec![StoreCfg { policy: c.policy, cap: c.cap, n_red: c.n_red, n_mw: c.n_mw, name: "rsvb".into(), ctor: 0 }]);
     let mut keep = Vec::new();
